@@ -567,7 +567,13 @@ func init() {
 			p := c17Pieces[r.Intn(len(c17Pieces))]
 			q := c17Pieces[r.Intn(len(c17Pieces))]
 			var src string
-			switch r.Intn(4) {
+			switch r.Intn(6) {
+			case 4:
+				// the parser accepts a string literal as the NAME of a loop: the name becomes a key of the variables
+				// object, with whatever characters it holds
+				src = "find all at least 1 ((not whitespace) = x) named " + quote(p.s)
+			case 5:
+				src = "replace all at least 1 (at least 1 (any = c) named " + quote(q.s) + " fewest) named " + quote(p.s+"2") + " with value"
 			case 0:
 				src = "find all " + quote(p.s) + " = lit"
 			case 1:
